@@ -8,10 +8,13 @@ import Driver.Handlers.Similarity
 import Driver.Handlers.DateParse
 import Driver.Handlers.Decoder
 import Driver.Handlers.Resolve
+import Driver.Handlers.Warnings
+import Driver.Handlers.Equal
+import Driver.Handlers.Living
 namespace Driver
 
 def handlers : List (String → List String → Option String) :=
-  [handleDates, handleSimilarity, handleDateParse, handleDecoder, handleResolve]
+  [handleDates, handleSimilarity, handleDateParse, handleDecoder, handleResolve, handleWarnings, handleEqual, handleLiving]
 
 def respond (line : String) : String :=
   match line.splitOn " " with
